@@ -18,6 +18,10 @@ func main() {
 	switch os.Args[1] {
 	case "verify":
 		cmdVerify(os.Args[2:])
+	case "allsources":
+		cmdAllSources(os.Args[2:])
+	case "modset":
+		cmdModset(os.Args[2:])
 	case "check":
 		os.Exit(cmdCheck(os.Args[2:]))
 	default:
@@ -57,8 +61,7 @@ func cmdVerify(args []string) {
 			fmt.Fprintln(os.Stderr, "no such function", k)
 			continue
 		}
-		for _, fn := range fns {
-			r := e.verifyFn(fn, opts, nil)
+		for _, r := range e.verifyAll(fns, opts, nil) {
 			rs = append(rs, r)
 			if *dumpSMT {
 				fmt.Println(r.Background)
@@ -96,4 +99,119 @@ func cmdVerify(args []string) {
 
 func init() {
 	debugDumpOb = os.Getenv("GOVC_DUMP_OB")
+}
+
+func cmdModset(args []string) {
+	e, err := loadEngine("/repo")
+	if err != nil {
+		fmt.Fprintln(os.Stderr, err)
+		os.Exit(2)
+	}
+	e.computeModSets()
+	e.fixPureModsets()
+	for _, k := range args {
+		fn := e.Fn(k)
+		if fn == nil {
+			fmt.Println("no such function", k)
+			continue
+		}
+		ms := e.modsets[fn]
+		fmt.Printf("%s: all=%v alloc=%v arrs=%d\n", k, ms.All, ms.Alloc, len(ms.Arrs))
+		if ms.All {
+			// explain: find a path to an All source
+			seen := map[*ssa.Function]bool{}
+			var walk func(f *ssa.Function, depth int) bool
+			walk = func(f *ssa.Function, depth int) bool {
+				if seen[f] || depth > 12 {
+					return false
+				}
+				seen[f] = true
+				if f.Blocks == nil {
+					if e.modsets[f] != nil && e.modsets[f].All {
+						fmt.Printf("%*s%s  (no body)\n", depth*2, "", f.String())
+						return true
+					}
+					return false
+				}
+				for _, b := range f.Blocks {
+					for _, ins := range b.Instrs {
+						switch x := ins.(type) {
+						case *ssa.Go, *ssa.Select, *ssa.Send:
+							fmt.Printf("%*s%s: %T\n", depth*2, "", f.String(), ins)
+							return true
+						case ssa.CallInstruction:
+							c := x.Common()
+							if c.IsInvoke() {
+								if intrinsicInvokeMod(c) == nil {
+									fmt.Printf("%*s%s: invoke %s.%s\n", depth*2, "", f.String(), c.Value.Type(), c.Method.Name())
+									return true
+								}
+								continue
+							}
+							switch cv := c.Value.(type) {
+							case *ssa.Function:
+								if m := e.modsets[cv]; m != nil && m.All {
+									fmt.Printf("%*s%s -> %s\n", depth*2, "", f.String(), cv.String())
+									if walk(cv, depth+1) {
+										return true
+									}
+								}
+							case *ssa.Builtin, *ssa.MakeClosure:
+							default:
+								fmt.Printf("%*s%s: dynamic call\n", depth*2, "", f.String())
+								return true
+							}
+						}
+					}
+				}
+				return false
+			}
+			walk(fn, 1)
+		}
+	}
+}
+
+func cmdAllSources(args []string) {
+	e, err := loadEngine("/repo")
+	if err != nil {
+		os.Exit(2)
+	}
+	e.computeModSets()
+	for _, f := range e.allFns {
+		if !e.inRepo(f) || f.Blocks == nil {
+			continue
+		}
+		if len(args) > 0 && !strings.HasPrefix(fnKey(f), args[0]) {
+			continue
+		}
+		for _, b := range f.Blocks {
+			for _, ins := range b.Instrs {
+				switch x := ins.(type) {
+				case *ssa.Go, *ssa.Select, *ssa.Send:
+					fmt.Printf("%s: %T\n", fnKey(f), ins)
+				case ssa.CallInstruction:
+					c := x.Common()
+					if c.IsInvoke() {
+						if intrinsicInvokeMod(c) == nil {
+							if _, ok := e.invokeTargets(c); !ok {
+								fmt.Printf("%s: invoke %s.%s\n", fnKey(f), c.Value.Type(), c.Method.Name())
+							}
+						}
+						continue
+					}
+					switch cv := c.Value.(type) {
+					case *ssa.Function:
+						if cv.Blocks == nil && intrinsicFuncMod(cv) == nil {
+							fmt.Printf("%s: bodyless %s\n", fnKey(f), cv.String())
+						} else if !e.inRepo(cv) && e.modsets[cv].All {
+							fmt.Printf("%s: std-all %s\n", fnKey(f), cv.String())
+						}
+					case *ssa.Builtin, *ssa.MakeClosure:
+					default:
+						fmt.Printf("%s: dynamic call\n", fnKey(f))
+					}
+				}
+			}
+		}
+	}
 }
